@@ -1,7 +1,467 @@
 package verifhook
 
-// Native scheduling control. Sequential replays do not need it; the concurrent
-// controller is installed by replay tests through these hooks.
+// Native schedule control: replays a schedule found by the engine against the real
+// build. The engine records a schedule as segments "thread T runs until it is
+// pre-empted at its N-th Yield | blocks | ends | crashes at its N-th Yield"; the
+// controller below releases one registered goroutine at a time accordingly.
+// Goroutines are registered by verifhook.Go(name, f); the harness goroutine is "main";
+// the first unknown goroutine that reaches a Yield is the pond worker ("worker").
+// Unregistered goroutines without yields (e.g. the VM's printer) run freely.
+
+import (
+	"bytes"
+	"fmt"
+	"runtime"
+	"strconv"
+	"sync"
+	"time"
+)
+
+type nthread struct {
+	name     string
+	gid      int64
+	gate     chan struct{}
+	yields   int
+	stopAt   int
+	atGate   bool
+	quiesce  bool
+	done     bool
+	reached  chan struct{}
+	running  bool // holds the controller's permission to run
+	mutexWait bool // parked because a mutex it wants is held
+}
+
+type controller struct {
+	mu       sync.Mutex
+	threads  map[string]*nthread
+	byGID    map[int64]*nthread
+	steps    []SchedStep
+	diverged string
+	crashed  bool
+	finished chan struct{}
+	active   bool
+}
+
+var ctl *controller
+
+func curGID() int64 {
+	var buf [64]byte
+	n := runtime.Stack(buf[:], false)
+	// "goroutine 123 ["
+	b := buf[:n]
+	b = bytes.TrimPrefix(b, []byte("goroutine "))
+	i := bytes.IndexByte(b, ' ')
+	if i < 0 {
+		return -1
+	}
+	id, _ := strconv.ParseInt(string(b[:i]), 10, 64)
+	return id
+}
+
+// goroutineStates parses runtime.Stack(all) into gid -> state.
+func goroutineStates() map[int64]string {
+	buf := make([]byte, 1<<20)
+	n := runtime.Stack(buf, true)
+	out := map[int64]string{}
+	for _, blk := range bytes.Split(buf[:n], []byte("\n\n")) {
+		if !bytes.HasPrefix(blk, []byte("goroutine ")) {
+			continue
+		}
+		line := blk
+		if i := bytes.IndexByte(line, '\n'); i >= 0 {
+			line = line[:i]
+		}
+		rest := line[len("goroutine "):]
+		i := bytes.IndexByte(rest, ' ')
+		if i < 0 {
+			continue
+		}
+		id, err := strconv.ParseInt(string(rest[:i]), 10, 64)
+		if err != nil {
+			continue
+		}
+		st := string(rest[i+1:])
+		if a := bytes.IndexByte([]byte(st), '['); a >= 0 {
+			st = st[a+1:]
+		}
+		if b := bytes.IndexAny([]byte(st), ",]"); b >= 0 {
+			st = st[:b]
+		}
+		out[id] = st
+	}
+	return out
+}
+
+func (c *controller) register(name string, gid int64) *nthread {
+	c.mu.Lock()
+	defer c.mu.Unlock()
+	t := c.threads[name]
+	if t == nil {
+		t = &nthread{name: name, gate: make(chan struct{}, 1), reached: make(chan struct{}, 1)}
+		c.threads[name] = t
+	}
+	if gid >= 0 {
+		t.gid = gid
+		c.byGID[gid] = t
+	}
+	return t
+}
+
+func (c *controller) lookupGID(gid int64) *nthread {
+	c.mu.Lock()
+	defer c.mu.Unlock()
+	return c.byGID[gid]
+}
+
+func (t *nthread) waitGate() {
+	ctl.mu.Lock()
+	if !ctl.active {
+		ctl.mu.Unlock()
+		return
+	}
+	t.atGate = true
+	ctl.mu.Unlock()
+	<-t.gate
+	ctl.mu.Lock()
+	t.atGate = false
+	ctl.mu.Unlock()
+}
+
+func nativeYield(site string) {
+	c := ctl
+	if c == nil || !c.active {
+		return
+	}
+	gid := curGID()
+	t := c.lookupGID(gid)
+	if t == nil {
+		// first yield of a goroutine nobody registered: the pond worker
+		name := "worker"
+		c.mu.Lock()
+		if _, taken := c.threads[name]; taken {
+			if c.threads[name].gid != 0 && c.threads[name].gid != gid {
+				name = fmt.Sprintf("worker%d", len(c.threads))
+			}
+		}
+		c.mu.Unlock()
+		t = c.register(name, gid)
+		t.waitGate() // starts gated, like a freshly spawned engine thread
+	} else {
+		c.mu.Lock()
+		running := t.running
+		c.mu.Unlock()
+		if !running {
+			// woke up from a native block without being scheduled: wait for the controller
+			t.waitGate()
+		}
+	}
+	t.yields++
+	if t.stopAt != 0 && t.yields == t.stopAt {
+		select {
+		case t.reached <- struct{}{}:
+		default:
+		}
+		t.waitGate()
+	}
+}
+
+func nativeSpawn(name string, f func()) {
+	c := ctl
+	if c == nil || !c.active {
+		go f()
+		return
+	}
+	t := c.register(name, -1)
+	started := make(chan struct{})
+	go func() {
+		gid := curGID()
+		c.mu.Lock()
+		t.gid = gid
+		c.byGID[gid] = t
+		c.mu.Unlock()
+		close(started)
+		t.waitGate()
+		defer func() {
+			c.mu.Lock()
+			t.done = true
+			c.mu.Unlock()
+		}()
+		f()
+	}()
+	<-started
+}
+
+// MutexLock is what the instrumenter turns `x.Lock()` into. Under the controller a
+// goroutine never blocks inside sync.Mutex.Lock: when the mutex is taken it parks at its
+// gate (counted as "blocked") and retries when it is scheduled again.
+func MutexLock(m *sync.Mutex) {
+	c := ctl
+	if c == nil || !c.active {
+		m.Lock()
+		return
+	}
+	t := c.lookupGID(curGID())
+	if t == nil {
+		m.Lock()
+		return
+	}
+	for !m.TryLock() {
+		c.mu.Lock()
+		active := c.active
+		t.mutexWait = true
+		c.mu.Unlock()
+		if !active {
+			m.Lock()
+			break
+		}
+		t.waitGate()
+		c.mu.Lock()
+		t.mutexWait = false
+		c.mu.Unlock()
+	}
+}
+
+func nativeQuiesce() {
+	c := ctl
+	if c == nil || !c.active {
+		// free-running replay: give the other goroutines time to settle
+		settle()
+		return
+	}
+	t := c.lookupGID(curGID())
+	if t == nil {
+		return
+	}
+	c.mu.Lock()
+	t.quiesce = true
+	c.mu.Unlock()
+	t.waitGate()
+	c.mu.Lock()
+	t.quiesce = false
+	c.mu.Unlock()
+}
+
+// settle waits until no goroutine has been runnable for a little while.
+func settle() {
+	quiet := 0
+	for i := 0; i < 2000 && quiet < 5; i++ {
+		time.Sleep(200 * time.Microsecond)
+		busy := 0
+		for _, st := range goroutineStates() {
+			if st == "runnable" || st == "running" {
+				busy++
+			}
+		}
+		if busy <= 1 {
+			quiet++
+		} else {
+			quiet = 0
+		}
+	}
+}
+
+func (c *controller) blocked(t *nthread) bool {
+	c.mu.Lock()
+	atGate, q, done, gid, mw := t.atGate, t.quiesce, t.done, t.gid, t.mutexWait
+	c.mu.Unlock()
+	if done {
+		return true
+	}
+	if q || (mw && atGate) {
+		return true
+	}
+	if atGate {
+		return false
+	}
+	st, ok := goroutineStates()[gid]
+	if !ok {
+		return true // goroutine gone
+	}
+	switch st {
+	case "running", "runnable", "syscall", "GC assist wait", "GC assist marking", "GC sweep wait", "GC scavenge wait", "force gc (idle)", "sleep", "preempted", "waiting":
+		return false
+	}
+	return true
+}
+
+// releaseAll gives up control: every gated goroutine continues freely.
+func (c *controller) releaseAll() {
+	c.mu.Lock()
+	c.active = false
+	ts := make([]*nthread, 0, len(c.threads))
+	for _, t := range c.threads {
+		ts = append(ts, t)
+	}
+	c.mu.Unlock()
+	for _, t := range ts {
+		t.stopAt = 0
+		select {
+		case t.gate <- struct{}{}:
+		default:
+		}
+	}
+}
+
+func (c *controller) run() {
+	defer close(c.finished)
+	defer func() {
+		if c.diverged != "" {
+			c.releaseAll()
+		}
+	}()
+	deadline := func() time.Time { return time.Now().Add(5 * time.Second) }
+	for i, s := range c.steps {
+		// find the thread (it may register a little later)
+		var t *nthread
+		for dl := deadline(); time.Now().Before(dl); {
+			c.mu.Lock()
+			t = c.threads[s.Thread]
+			ready := t != nil && (t.atGate || t.gid != 0)
+			c.mu.Unlock()
+			if ready {
+				break
+			}
+			t = nil
+			time.Sleep(100 * time.Microsecond)
+		}
+		if t == nil {
+			c.diverged = fmt.Sprintf("step %d: thread %q never appeared", i, s.Thread)
+			return
+		}
+		// wait until it sits at its gate (a goroutine that has just been woken from a
+		// native block reaches its next Yield and gates there)
+		for dl := deadline(); ; {
+			c.mu.Lock()
+			at := t.atGate
+			c.mu.Unlock()
+			if at {
+				break
+			}
+			if time.Now().After(dl) {
+				c.diverged = fmt.Sprintf("step %d: thread %q is not waiting to be scheduled", i, s.Thread)
+				return
+			}
+			time.Sleep(50 * time.Microsecond)
+		}
+		switch s.Stop {
+		case "yield", "crash":
+			t.stopAt = s.N
+		default:
+			t.stopAt = 0
+		}
+		// drain a stale notification
+		select {
+		case <-t.reached:
+		default:
+		}
+		c.mu.Lock()
+		t.atGate = false
+		t.running = true
+		c.mu.Unlock()
+		t.gate <- struct{}{}
+		switch s.Stop {
+		case "free":
+			return
+		case "yield", "crash":
+			select {
+			case <-t.reached:
+			case <-time.After(5 * time.Second):
+				c.diverged = fmt.Sprintf("step %d: thread %q did not reach yield #%d (%s); it is at yield #%d", i, s.Thread, s.N, s.Site, t.yields)
+				return
+			}
+			// make sure it is parked at the gate
+			for dl := deadline(); time.Now().Before(dl); {
+				c.mu.Lock()
+				at := t.atGate
+				c.mu.Unlock()
+				if at {
+					break
+				}
+				time.Sleep(20 * time.Microsecond)
+			}
+			c.mu.Lock()
+			t.running = false
+			if s.Stop == "crash" {
+				c.crashed = true
+			}
+			c.mu.Unlock()
+		case "block", "end":
+			ok := false
+			for dl := deadline(); time.Now().Before(dl); {
+				if c.blocked(t) {
+					// confirm it stays blocked (not a transient state)
+					stable := true
+					for k := 0; k < 5 && stable; k++ {
+						time.Sleep(200 * time.Microsecond)
+						stable = c.blocked(t)
+					}
+					if stable {
+						ok = true
+						break
+					}
+				}
+				time.Sleep(50 * time.Microsecond)
+			}
+			if !ok {
+				c.diverged = fmt.Sprintf("step %d: thread %q did not %s", i, s.Thread, s.Stop)
+				return
+			}
+			c.mu.Lock()
+			t.running = false
+			c.mu.Unlock()
+		}
+	}
+}
+
+// runControlled executes the harness under the recorded schedule.
+func runControlled(h func(int), c Case) {
+	k := &controller{threads: map[string]*nthread{}, byGID: map[int64]*nthread{}, steps: c.Sched, finished: make(chan struct{}), active: true}
+	ctl = k
+	YieldHook, SpawnHook, QuiesceHook = nativeYield, nativeSpawn, nativeQuiesce
+	CrashedHook = func() bool { k.mu.Lock(); defer k.mu.Unlock(); return k.crashed }
+	defer func() {
+		k.mu.Lock()
+		k.active = false
+		k.mu.Unlock()
+		YieldHook, SpawnHook, QuiesceHook, CrashedHook = nil, nil, nil, nil
+	}()
+	main := k.register("main", curGID())
+	go k.run()
+	main.waitGate()
+	hdone := make(chan struct{})
+	var pan interface{}
+	func() {
+		defer close(hdone)
+		defer func() { pan = recover() }()
+		h(c.Shape)
+	}()
+	<-hdone
+	// let the controller notice the end (it may be waiting on a later step)
+	select {
+	case <-k.finished:
+	case <-time.After(50 * time.Millisecond):
+	}
+	if k.diverged != "" {
+		mu.Lock()
+		Notes = append(Notes, "schedule diverged: "+k.diverged)
+		Failed = append(Failed, "schedule-diverged")
+		mu.Unlock()
+	}
+	if pan != nil {
+		panic(pan)
+	}
+}
+
+func init() {
+	RunHook = func(h func(int), c Case) {
+		if len(c.Sched) == 0 {
+			h(c.Shape)
+			return
+		}
+		runControlled(h, c)
+	}
+}
+
 var (
 	YieldHook   func(site string)
 	SpawnHook   func(name string, f func())
@@ -26,7 +486,9 @@ func spawn(name string, f func()) {
 func quiesce() {
 	if QuiesceHook != nil {
 		QuiesceHook()
+		return
 	}
+	settle()
 }
 
 func crashed() bool {
